@@ -69,7 +69,9 @@ def framing_streams(rng, n):
     return out
 
 
-async def run_stream_face(face_cls, chunks, eof=True):
+async def run_stream_face(face_cls, chunks, eof=True, gap='yield'):
+    """gap: 'yield' - the loop runs between chunks and before EOF; 'eof-with-last' - the last chunk and EOF become readable in the
+    same loop turn; 'burst' - everything (and EOF) is buffered before run() gets to read at all (peer wrote and closed at once)."""
     got = []
     face = face_cls()
     face.reader = asyncio.StreamReader()
@@ -79,10 +81,11 @@ async def run_stream_face(face_cls, chunks, eof=True):
         got.append((typ, bytes(buf)))
     face.callback = cb
     task = asyncio.ensure_future(face.run())
-    for ch in chunks:
+    for ci, ch in enumerate(chunks):
         if ch:
             face.reader.feed_data(ch)
-        await asyncio.sleep(0)
+        if gap == 'yield' or (gap == 'eof-with-last' and ci < len(chunks) - 1):
+            await asyncio.sleep(0)
     if eof:
         face.reader.feed_eof()
     for _ in range(6):
@@ -119,6 +122,9 @@ def check_framing(ctx, rng):
     if not ctx.quick:
         streams = [s for i, s in enumerate(streams) if i % ctx.nshards == ctx.shard or i < 4]
 
+    GAPS = ['yield', 'yield', 'eof-with-last', 'burst']
+    gap_i = [0]
+
     async def body(S):
         for si, packets in enumerate(streams):
             data = b''.join(packets)
@@ -151,15 +157,20 @@ def check_framing(ctx, rng):
                     prev = c
                 chunks.append(data[prev:])
                 for cls in ((TcpFace,) if (len(cuts) > 1 and len(cuts) != n - 1) else (TcpFace, UnixFace)):
-                    got, done, running, err = await run_stream_face(cls, chunks)
-                    judge_framing(ctx, packets, n, got, done, running, err, {'stream': si, 'cuts': cuts[:20], 'face': cls.__name__})
+                    gap = GAPS[gap_i[0] % len(GAPS)]
+                    gap_i[0] += 1
+                    got, done, running, err = await run_stream_face(cls, chunks, gap=gap)
+                    ctx.event('framing-gap-' + gap)
+                    judge_framing(ctx, packets, n, got, done, running, err, {'stream': si, 'cuts': cuts[:20], 'face': cls.__name__, 'gap': gap})
                 ctx.case(('framing', si, cuts[:6], len(cuts)))
             # EOF at every offset (stream ends mid-packet)
             offs = range(0, n + 1) if small else sorted(set(rng.sample(range(0, n + 1), 40)) | {0, n})
             for k in offs:
                 cut = rng.randint(0, k) if k else 0
-                got, done, running, err = await run_stream_face(TcpFace, [data[:cut], data[cut:k]])
-                judge_framing(ctx, packets, k, got, done, running, err, {'stream': si, 'eof_at': k})
+                gap = GAPS[gap_i[0] % len(GAPS)]
+                gap_i[0] += 1
+                got, done, running, err = await run_stream_face(TcpFace, [data[:cut], data[cut:k]], gap=gap)
+                judge_framing(ctx, packets, k, got, done, running, err, {'stream': si, 'eof_at': k, 'gap': gap})
                 ctx.case(('eof', si, k))
                 ctx.event('framing-eof')
     S = vtime.run(body)
@@ -640,6 +651,8 @@ def run(ctx):
     for k in ('framing-run', 'framing-eof', 'delivered', 'bystander-pending-ok', 'bystander-handler-ok'):
         ctx.need_event(k)
     ctx.need_event('udp-datagram')
+    ctx.need_event('framing-gap-burst')
+    ctx.need_event('framing-gap-eof-with-last')
     ctx.need_event('finished-window')
     ctx.assumptions = ['handler exceptions and validator exceptions of user code are outside the statement (harness handlers never raise)',
                        '"legitimately addressed" = the bytes strictly decode (refcodec) to a Data/Nack matching the pending Interest']
